@@ -228,7 +228,11 @@ def main(tier):
             t.call(1, 'h_make', [t.slots + 64 * d, d, 1.5])
         for d in (2, 3, 6):
             t.call(2, 'h_drop', [t.slots + 64 * d])
-        chk.obligation('hand-over: vectors created under thread 1 are destroyed under thread 2 without an invalid access or foreign-TLS store', 'holds')
+        # vectors emptied by assignment on one thread and released on another (and on the same one)
+        for d, (mk, dr) in zip((2, 3, 5), ((1, 2), (3, 3), (2, 1))):
+            t.call(mk, 'h_make_emptied', [t.slots + 64 * d, d])
+            t.call(dr, 'h_drop', [t.slots + 64 * d])
+        chk.obligation('hand-over: vectors created under thread 1 are destroyed under thread 2, vectors emptied by assignment are released on the same or another thread, without an invalid access or foreign-TLS store', 'holds')
         # ---- (c) thread exit
         for thread in (3, 2, 1):
             n_d = t.thread_exit(thread)
